@@ -312,6 +312,9 @@ func parseListener(s string) (*vTrans, bool) {
 	return &vTrans{proto: f[0], addr: f[1], port: port}, rcvd
 }
 
+// is the binding still honoured? (set by pinwait.go, which knows the fields of the table's entries)
+var vPinAlive = func(e *ExpireBackend) bool { return true }
+
 func init() {
 	vReg("pipe cfg", func(a []string) string {
 		if vW != nil {
@@ -399,26 +402,6 @@ func init() {
 		mgr.Lock()
 		mgr.lastCleanTime -= secs
 		mgr.Unlock()
-		return "ok"
-	})
-	// pipe pinwait p=<i> <seconds>: that much time passes for the dialog / transaction bindings of the proxy (the stored
-	// instants are moved into the past while the loop is idle)
-	vReg("pipe pinwait", func(a []string) string {
-		if vW == nil {
-			return "not-run"
-		}
-		m := kv(a)
-		i, _ := strconv.Atoi(m["p"])
-		secs, _ := strconv.ParseInt(a[len(a)-1], 10, 64)
-		p := vW.proxies[i]
-		if !vW.barrier(p) {
-			return "stalled"
-		}
-		d := time.Duration(secs) * time.Second
-		p.dialogBasedBackends.nextCleanTime = p.dialogBasedBackends.nextCleanTime.Add(-d)
-		for _, e := range p.dialogBasedBackends.backends {
-			e.expire = e.expire.Add(-d)
-		}
 		return "ok"
 	})
 	// pipe bfail p=<i> <0|1> <addr>: the backend double at <addr> starts / stops failing its sends (a TCP backend that is
@@ -616,7 +599,7 @@ func init() {
 		}
 		var pins []string
 		for k, e := range p.dialogBasedBackends.backends {
-			if !e.expire.After(time.Now()) {
+			if !vPinAlive(e) {
 				continue // not honoured any more (deleted lazily)
 			}
 			ref := "RR"
